@@ -47,9 +47,51 @@ func (b *B) UnmarshalJSON(in []byte) error {
 	return nil
 }
 
-// Bytes draws a byte string of length lo..hi.
+// mix64 is the splitmix64 finaliser: spreads a drawn (small-biased) value over the whole range.
+func mix64(x uint64) uint64 {
+	x += 0x9e3779b97f4a7c15
+	x = (x ^ (x >> 30)) * 0xbf58476d1ce4e5b9
+	x = (x ^ (x >> 27)) * 0x94d049bb133111eb
+	return x ^ (x >> 31)
+}
+
+// Uniform draws an integer in lo..hi with (nearly) equal probability for every value. rapid's own
+// integer and slice generators are deliberately biased towards small values and short lengths
+// (measured: SliceOfN(Byte(), 0, 100) is shorter than 10 in 84% of the draws and practically never
+// longer than 40; IntRange(0, 100) is below 10 in 42%), which starves anything that depends on a
+// particular larger length; this spreads a drawn 64-bit value with a fixed bijection instead.
+func Uniform(t *rapid.T, label string, lo, hi int) int {
+	if hi <= lo {
+		return lo
+	}
+	return lo + int(mix64(rapid.Uint64().Draw(t, label))%uint64(hi-lo+1))
+}
+
+// Bytes draws a byte string of length lo..hi: the length is uniform over the range in two draws out
+// of three and rapid's (short-biased, boundary-biased) choice otherwise; the content is rapid's
+// (small-value-biased) bytes or, every other time, uniformly distributed bytes expanded from one drawn
+// seed.
 func Bytes(t *rapid.T, label string, lo, hi int) B {
-	return B(rapid.SliceOfN(rapid.Byte(), lo, hi).Draw(t, label))
+	n := lo
+	if hi > lo {
+		if Pick(t, label+"/lenkind", 2, 1) == 0 {
+			n = Uniform(t, label+"/len", lo, hi)
+		} else {
+			n = rapid.IntRange(lo, hi).Draw(t, label+"/len")
+		}
+	}
+	if n > 0 && rapid.Bool().Draw(t, label+"/uniform") {
+		s := rapid.Uint64().Draw(t, label+"/seed")
+		b := make(B, n)
+		for i := 0; i < n; i += 8 {
+			s = mix64(s)
+			for j := 0; j < 8 && i+j < n; j++ {
+				b[i+j] = byte(s >> (8 * uint(j)))
+			}
+		}
+		return b
+	}
+	return B(rapid.SliceOfN(rapid.Byte(), n, n).Draw(t, label))
 }
 
 // BytesN draws exactly n bytes.
